@@ -36,7 +36,7 @@ plan('C03',
      ],
      exhaustive={'thorough': True},
      assumptions=COMMON_ASSUME + [
-         'byte strings never contain NUL, \\v or \\f (whether \\v/\\f are "whitespace" for trim/split() is not documented); separators and patterns are non-empty; '
+         'byte strings never contain NUL; the model\'s whitespace for trim()/trimmed()/split() is exactly { space, \\t, \\n, \\r } - the set myisspace() enumerates - so \\v, \\f and every other byte are text; separators and patterns are non-empty; '
          'indices are in range (0 <= i <= j <= length, substr start in [-length, length], count >= 0)',
          'resize(n) to a larger length is judged as documented ("useful for writing to it externally"): old bytes kept, length n, NUL at n; the new bytes are written by the harness before comparing',
          'String(double) / String(float) have no documented format: only length/terminator are judged, plus exact read-back for values with a short exact decimal expansion; '
